@@ -627,6 +627,7 @@ def run(tier, seed):
     b = BUDGET[tier]
     tasks = [(seed, i, b["docs"], b["muts"], tier) for i in range(b["batches"])]
     rs = runner.pmap(run_batch, tasks)
+    runner.stamp("load", "run_batch", tasks, rs)
     rules, stages = collections.Counter(), collections.Counter()
     for r in rs:
         rules.update(r["rules"]); stages.update(r["stages"])
